@@ -47,6 +47,15 @@ def effective(u, cfg):
     """The unit as the model sees it: (present, in_baseline, results-dict, pev).  Missing baseline units
     are dropped (policy 'drop') or become 0 votes at 0 percent (policy 'zero')."""
     in_base = u["in_baseline"] and u["postal"] in cfg["states"]
+    if u["in_feed"] and u.get("r_nan"):
+        # a feed row without results: under 'drop' the baseline join loses the unit, so it is in the feed but not in the
+        # (dropped) join = unexpected; under 'zero' it counts as 0 votes at 0 percent
+        z = dict(u)
+        z.update(r_dem=0, r_gop=0, r_turnout=0)
+        if in_base and cfg["policy"] == "zero":
+            z["pev"] = 0.0
+            return True, True, z, 0.0
+        return True, False, z, u["pev"]
     if u["in_feed"]:
         return True, in_base, u, u["pev"]
     if in_base and cfg["policy"] == "zero":
@@ -56,9 +65,15 @@ def effective(u, cfg):
     return False, in_base, u, 0.0
 
 
-def categorize(units, cfg):
+OUTLIER_CATEGORIES = ("non-modeled: strange turnout factor modeled", "non-modeled: strange margin change modeled")
+
+
+def categorize(units, cfg, outlier_flagged=None):
     """id -> dict(category, reporting (0/1 as shown in the unit table), kind in
-    {'fit','predict','passthrough'}, eff=<effective unit>) for every unit that must appear."""
+    {'fit','predict','passthrough'}, eff=<effective unit>) for every unit that must appear.
+
+    outlier_flagged: {id: outlier category} as decided by an enabled outlier model (the reference does not
+    re-implement the outlier regression); it only applies to units that would otherwise be fitting units."""
     ub, sb = blocklists(units, cfg)
     lo, hi = limits(cfg)
     thr = cfg["threshold"]
@@ -79,6 +94,8 @@ def categorize(units, cfg):
             tf = Fraction(result_weight(eff, cfg), bw)
             if tf <= Fraction(lo).limit_denominator(10**6) or tf >= Fraction(hi).limit_denominator(10**6):
                 out[u["id"]] = dict(category=STRANGE, reporting=0, kind="passthrough", eff=eff)
+            elif outlier_flagged and u["id"] in outlier_flagged:
+                out[u["id"]] = dict(category=outlier_flagged[u["id"]], reporting=0, kind="passthrough", eff=eff)
             else:
                 out[u["id"]] = dict(category=EXPECTED, reporting=1, kind="fit", eff=eff)
         else:
